@@ -253,7 +253,7 @@ class ConcEngine(object):
             # one injected I/O error somewhere in the concurrent phase (C08: calls that fail part-way)
             from .single import ERRNOS
             f = prog["fault"]
-            fp = seam.FaultPlan(f["index"], ERRNOS[f.get("errno", "EIO")], bool(f.get("persistent")))
+            fp = seam.FaultPlan(f["index"], ERRNOS[f.get("errno", "EIO")], f.get("persistent") or False)
             w.run.fault = fp
         stagger = prog.get("stagger") or []
         for ti, ops in enumerate(prog["tasks"]):
